@@ -104,7 +104,7 @@ struct Inst {
     scpi_t ctx;
     scpi_interface_t ifc;
     InstCfg cfg;
-    std::unique_ptr<XBuf> inbuf, qbuf, heapbuf;
+    std::unique_ptr<XBuf> inbuf, qbuf, heapbuf, tableBuf;
     std::vector<scpi_command_t> table;
     std::vector<std::string> trace;   // one line per observable event
     std::string out;                  // all bytes written
@@ -114,6 +114,7 @@ struct Inst {
     int handlerCalls = 0;
     bool inControl = false;
     int repush = 0, repushed = 0;     // see cbError
+    bool inPoke = false; int writePokes = 0; std::string lastChunk;   // see cbWrite / scripted
     std::unique_ptr<Inst> decoy;      // see InstCfg::decoy
     std::string invariant;            // first violated structural invariant ("" = none)
     // state sampled inside the most recent handler (for C09 non-trivial classification)
@@ -121,6 +122,9 @@ struct Inst {
 
     static size_t cbWrite(scpi_t *c, const char *d, size_t n) {
         Inst *me = (Inst *) c->user_context;
+        // a transport that services its other connection while it waits for room: the second instrument runs the same
+        // chunk again from inside this instrument's write callback, BEFORE the bytes handed over here are taken
+        if (me->decoy && !me->inPoke && me->writePokes < 2) { me->writePokes++; me->inPoke = true; me->feedDecoy(me->lastChunk.data(), (int) me->lastChunk.size()); me->inPoke = false; }
         me->out.append(d, n);
         me->trace.push_back("W:" + vis(std::string(d, n)));
         return n;
@@ -174,9 +178,12 @@ struct Inst {
         }
         scpi_command_t end = SCPI_CMD_LIST_END;
         table.push_back(end);
+        // the command list is handed over in an exact-size block: a read behind its end marker traps
+        tableBuf.reset(new XBuf(sizeof(scpi_command_t) * table.size()));
+        memcpy(tableBuf->p, table.data(), sizeof(scpi_command_t) * table.size());
         ifc.error = cbError; ifc.write = cbWrite; ifc.control = cbControl; ifc.flush = cbFlush; ifc.reset = cbReset;
         if (cfg.noOptionalCallbacks) { ifc.control = nullptr; ifc.flush = nullptr; ifc.reset = nullptr; }
-        SCPI_Init(&ctx, table.data(), &ifc, cfg.units ? cfg.units : scpi_units_def, "MANU", "MODEL", nullptr, "01-02", inbuf->p, cfg.bufLen,
+        SCPI_Init(&ctx, (const scpi_command_t *) tableBuf->p, &ifc, cfg.units ? cfg.units : scpi_units_def, "MANU", "MODEL", nullptr, "01-02", inbuf->p, cfg.bufLen,
                   (scpi_error_t *) qbuf->p, (int16_t) cfg.queueLen);
 #if USE_DEVICE_DEPENDENT_ERROR_INFORMATION && !USE_MEMORY_ALLOCATION_FREE
         heapbuf.reset(new XBuf(cfg.heapLen, 0xEE));
@@ -186,7 +193,7 @@ struct Inst {
         if (cfg.decoy) {
             InstCfg d = cfg; d.decoy = false; d.units = decoyUnits(); d.traceValues = false;
             if (d.cmds.size() >= 2) std::rotate(d.cmds.begin(), d.cmds.begin() + 1, d.cmds.end());      // same commands at other table positions ...
-            if (d.cmds.size() >= 4) d.cmds.resize(d.cmds.size() - d.cmds.size() / 3);                    // ... in a shorter table
+            if (d.cmds.size() >= 4) d.cmds.resize(d.cmds.size() / 2);                                      // ... in a table half as long
             decoy.reset(new Inst(d));
         }
     }
@@ -200,15 +207,20 @@ struct Inst {
         else if (SCPI_ErrorCount(&ctx) < 0 || SCPI_ErrorCount(&ctx) > cfg.queueLen) invariant = fmt("%s: SCPI_ErrorCount %d outside 0..%d", where, (int) SCPI_ErrorCount(&ctx), cfg.queueLen);
         if (!inbuf->ok() || !qbuf->ok() || (heapbuf && !heapbuf->ok())) invariant = std::string(where) + ": canary after a library buffer overwritten";
     }
+    unsigned inputCalls = 0;
+    void feedDecoy(const char *d, int n) { decoy->input(d, n); decoy->input("\r", 1); decoy->trace.clear(); decoy->out.clear(); decoy->errors.clear(); decoy->controls.clear(); SCPI_ErrorClear(&decoy->ctx); }
     bool input(const std::string &bytes) { return input(bytes.data(), (int) bytes.size()); }
     bool input(const char *d, int n) {
-        if (decoy) { decoy->input(d, n); decoy->input("\r", 1); decoy->trace.clear(); decoy->out.clear(); decoy->errors.clear(); decoy->controls.clear(); SCPI_ErrorClear(&decoy->ctx); }
+        if (decoy) { lastChunk.assign(d, (size_t) n); writePokes = 0; }
+        bool decoyAfter = decoy && (inputCalls++ & 1);      // alternately before and after the call under test, so that state can leak in either direction
+        if (decoy && !decoyAfter) feedDecoy(d, n);
         // the chunk is handed over in an exact-size heap copy so that over-reads of the caller's data trap
         XBuf copy((size_t) n);
         if (n) memcpy(copy.p, d, (size_t) n);
         bool r = SCPI_Input(&ctx, copy.p, n);
         trace.push_back(fmt("R:%d", (int) r));
         checkInvariants("SCPI_Input");
+        if (decoyAfter) feedDecoy(d, n);
         return r;
     }
     std::string pending() const { return std::string(ctx.buffer.data, ctx.buffer.position); }
@@ -391,6 +403,13 @@ inline scpi_result_t Inst::scripted(scpi_t *c) {
     me->trace.push_back(fmt("H:%d:", tag) + raw);
     if (tag < 1 || tag > (int) me->cfg.cmds.size()) { me->invariant = "handler entered with a tag outside the table"; return SCPI_RES_ERR; }
     const Script &s = me->cfg.cmds[(size_t) tag - 1].script;
+    if (me->decoy && !me->inPoke) {
+        // a handler that talks to the second instrument before it looks at its own command: the same header with every digit
+        // changed, so that anything remembered about "the current command" outside the context would now be the other one's
+        std::string h = raw; for (char &ch : h) if (ch >= '0' && ch <= '9') ch = (char) ('0' + (ch - '0' + 1) % 10);
+        h += " 1\n";
+        me->inPoke = true; me->feedDecoy(h.data(), (int) h.size()); me->inPoke = false;
+    }
     if (s.numbers > 0) {
         std::vector<int32_t> nums((size_t) s.numbers + 1, 0x5a5a5a5a);
         XBuf nb(4 * (size_t) s.numbers, 0x5a);
